@@ -10,6 +10,7 @@ CONSTANTS
   MaxRoute = 1
   PkFromPrepare = FALSE
   TakeAll = FALSE
+  KsFailureIsNotExist = FALSE
   DefectNoConnCached = FALSE
   Variant = "ok"
 INVARIANTS RouteFreshPerCall
